@@ -468,15 +468,34 @@ func modeCache(seed uint64, n int, out *sx.Out) {
 		keys := []string{"0", "root", "1000", "1001", "alice", "staff", "x9", "xbob", "", "unset", "0 ", "7"}
 		var ops, obs []string
 		paused := false
-		for k := 6 + r.Intn(12); k > 0; k-- {
+		// one scripted run per class of pauses: pin, hit, miss, hit, pause, then the pinned key (still pinned) and the cached one (expired)
+		script := []int{}
+		if cl == "AfterPause" && pauses == 1 {
+			script = []int{1, 2, 3, 3, 4, 2, 3}
+		}
+		total := 6 + r.Intn(12)
+		for k := 0; k < total+len(script); k++ {
 			c := r.Intn(100)
+			scripted := 0
+			if k < len(script) {
+				scripted = script[k]
+			}
+			if scripted == 1 {
+				aucoalesce.VerifHardcode(caches[0], "1000", "alice")
+				ops = append(ops, fmt.Sprintf("CHard %d %s %s", 0, cs("1000"), cs("alice")))
+				obs = append(obs, "None")
+				continue
+			}
+			if scripted == 4 {
+				c = 15
+			}
 			switch {
-			case c < 12:
+			case c < 12 && scripted == 0:
 				w, id, name := r.Intn(2), sx.Pick(r, []string{"1000", "7", "0", "1001"}), sx.Pick(r, []string{"alice", "staff", "root", "n00:1000.0"})
 				aucoalesce.VerifHardcode(caches[w], id, name)
 				ops = append(ops, fmt.Sprintf("CHard %d %s %s", w, cs(id), cs(name)))
 				obs = append(obs, "None")
-			case c < 20 && cl == "AfterPause" && !paused:
+			case c < 20 && cl == "AfterPause" && !paused && (scripted == 0 || scripted == 4):
 				paused = true
 				time.Sleep(1300 * time.Millisecond)
 				tick++
@@ -484,6 +503,11 @@ func modeCache(seed uint64, n int, out *sx.Out) {
 				obs = append(obs, "None")
 			default:
 				w, kind, key := r.Intn(2), r.Intn(2), sx.Pick(r, keys)
+				if scripted == 2 {
+					w, kind, key = 0, 0, "1000"
+				} else if scripted == 3 {
+					w, kind, key = 0, 0, "1001"
+				}
 				asked = nil
 				var v string
 				if kind == 0 {
